@@ -1,6 +1,6 @@
 # which properties have an extracted model runner, and which translators regenerate coq/gen/*.v
 import os, sys
-MODELS = ["C20", "C17", "C13", "C08", "C18", "C06", "C16", "C19", "C14", "C07", "C10", "C05", "C01", "C12", "C02"]
+MODELS = ["C20", "C17", "C13", "C08", "C18", "C06", "C16", "C19", "C14", "C07", "C10", "C05", "C01", "C12", "C02", "C09"]
 
 
 def _kw():
@@ -17,4 +17,4 @@ def _mod(name):
 
 
 def translators():
-    return [("kw", _kw), ("c13", _mod("c13")), ("c06", _mod("c06")), ("schema", _mod("schema")), ("punct", _mod("punct")), ("recov", _mod("recov"))]
+    return [("kw", _kw), ("c13", _mod("c13")), ("c06", _mod("c06")), ("schema", _mod("schema")), ("punct", _mod("punct")), ("recov", _mod("recov")), ("disamb", _mod("disamb"))]
